@@ -1,7 +1,8 @@
 (* C08 — SCTE-35 decoding reports exactly the encoded splice_info_section fields.
    Statements only; proofs in Proofs/ScteDecode.v and Proofs/ScteReject.v.  Vocabulary:
    - Spec/Scte35Spec.v: logical `splice_info`, `ser_splice_info` (SCTE 35 section 9 syntax), `wf_splice_info` (field ranges);
-   - Proofs/ScteExpected.v: `supported` (wf, table_id 0xFC, clear, splice_null / time_signal with time /
+   - Proofs/ScteExpected.v: `wf_decode` (the clauses of wf_splice_info the decoder depends on; implied by it,
+     see C08_supported_of_wf), `supported` (wf_decode, table_id 0xFC, clear, splice_null / time_signal with time /
      splice_insert, pointer_field < 255) and `expected s`, the decoder's struct for s: every getter of the
      Go API is a field (or a two-line function, ScteEnc.get_upid/get_mid) of that struct, see Exec/ScteExec.v view_scte;
    - Model/Scte.v: `new_scte35`, the model of scte35.NewSCTE35 (repaired code for F8 and the two loops);
@@ -18,6 +19,11 @@ Local Open Scope N_scope.
 Theorem C08_decode_ser : forall s, supported s -> new_scte35 (ser_splice_info s) = Ok (expected s).
 Proof. exact decode_ser. Qed.
 Print Assumptions C08_decode_ser.
+
+Theorem C08_supported_of_wf : forall s, wf_splice_info s -> si_table_id s = 252 -> si_encrypted s = false ->
+  len (si_pointer s) < 255 -> supported_cmd (si_cmd s) -> supported s.
+Proof. exact supported_of_wf. Qed.
+Print Assumptions C08_supported_of_wf.
 
 (* PTS() = (pts_time + pts_adjustment) mod 2^33 whenever the command carries a time; HasPTS() is then true
    and the command's own PTS() is the unadjusted pts_time *)
@@ -85,7 +91,7 @@ Definition ex_signal : splice_info :=
        [Foreign 1 [67; 85; 69; 73; 0]; ex_seg; Seg 5 None] [0; 0] 3735928559.
 Example C08_example_supported : supported ex_signal.
 Proof.
-  unfold supported, wf_splice_info, ex_signal, ex_seg. cbn.
+  unfold supported, wf_decode, ex_signal, ex_seg. cbn.
   repeat (split || constructor); cbn; try lia; try discriminate; auto.
 Qed.
 Example C08_example_decodes :
